@@ -407,6 +407,53 @@ def p_directives(wd, which):
     return ["harness-error unknown directive probe " + which]
 
 
+def p_debug(wd, arg):
+    """-d / %option debug: for every token the scanner writes '--accepting rule at line N ("text")' to stderr, N being the line
+    of the rule in the specification (the manual, section on -d), '--accepting default rule' for unmatched text and
+    '--EOF (start condition k)' at the end; yyset_debug(0) / yy_flex_debug = 0 silence it"""
+    backend, how, blanks = arg
+    lines = ["%option noyywrap nounput noinput" + (" reentrant" if backend == "r" else "") + (" debug" if how == "opt" else "")]
+    lines += ["%x COM"]
+    lines += [""] * blanks
+    lines += ["%%"]
+    rules = [("ab", "{ }"), ("[0-9]+", "|"), ("x+", "{ }"), ('"/*"', "{ yybegin(COM); }"), ("<COM>\"*/\"", "{ yybegin(INITIAL); }"),
+             ("<COM>.|\\n", "{ }"), ("q", "{ if (yyleng == 1) { %s } }" % ("yyset_debug(0, yyscanner);" if backend == "r" else "yyset_debug(0);"))]
+    where = {}
+    for i, (pat, act) in enumerate(rules):
+        for _ in range((i * 7 + blanks) % 3):
+            lines.append("")
+        lines.append("%s\t%s" % (pat, act))
+        where[i] = len(lines)
+    lines.append("%%")
+    data = "ab12xx?/*a*/abqab"
+    if backend == "r":
+        lines.append('int main(void) { yyscan_t s; yylex_init(&s); yyset_debug(1, s); yy_scan_string("%s", s); yylex(s); yylex_destroy(s); return 0; }' % data)
+    else:
+        lines.append('int main(void) { yy_scan_string("%s"); yylex(); return 0; }' % data)
+    # (a reentrant scanner starts with tracing off - yylex_init clears the flag - and is switched on with yyset_debug)
+    text = "\n".join(lines) + "\n"
+    rc, err = flex(wd, text, ["-d"] if how == "cli" else [])
+    if rc != 0:
+        return ["flex exits %s: %s" % (rc, err[:200])]
+    rc, e = cc(wd, ["p.c"])
+    if rc != 0:
+        return ["the debug scanner does not compile: " + e[:300]]
+    rc, out, err = run([os.path.join(wd, "p.exe")], cwd=wd, timeout=20)
+    got = [l for l in err.decode(errors="replace").splitlines() if l.startswith("--") and "end of buffer" not in l]
+    want = ['--accepting rule at line %d ("ab")' % where[0], '--accepting rule at line %d ("12")' % where[1],
+            '--accepting rule at line %d ("xx")' % where[2], '--accepting default rule ("?")',
+            '--accepting rule at line %d ("/*")' % where[3], '--accepting rule at line %d ("a")' % where[5],
+            '--accepting rule at line %d ("*/")' % where[4], '--accepting rule at line %d ("ab")' % where[0],
+            '--accepting rule at line %d ("q")' % where[6]]
+    # (after yyset_debug(0) in the action of q nothing more is traced)
+    if got != want:
+        k = next((i for i in range(min(len(got), len(want))) if got[i] != want[i]), min(len(got), len(want)))
+        return ["debug trace line %d: scanner wrote %r, the manual's form is %r" % (k + 1, got[k] if k < len(got) else None, want[k] if k < len(want) else None)]
+    if out.decode(errors="replace") != "?":
+        return ["the debug scanner's output is %r, only the unmatched '?' is to be echoed" % out.decode(errors="replace")[:60]]
+    return []
+
+
 def p_cli_vs_option(wd, arg):
     """the same scanner, byte for byte, from --name and from %option name"""
     name, need = arg
@@ -456,6 +503,7 @@ PROBES = [("nodefault", p_nodefault, [(b, h) for b in ("nr", "r", "c99", "cxx") 
                                                                        ("r", "stack yylineno"), ("nr", "array"), ("r", "tables-file=\"zz.tbl\""), ("nr", "tables-file=\"zz.tbl\"")]), ("yylmax", p_yylmax, [None]), ("bufsize", p_bufsize, [None]),
           ("splices", p_splices, ["nr", "r"]), ("post-action", p_post_action, [None]), ("user-routines", p_user_routines, ["nr", "r", "c99"]),
           ("header-file", p_header, ["nr", "r"]), ("bison", p_bison, ["bridge", "locations"]), ("contradictions", p_contradictions, [None]),
+          ("debug-trace", p_debug, [(b, h, n) for b in ("nr", "r") for h in ("opt", "cli") for n in (0, 2)]),
           ("directives", p_directives, ["array", "pointer", "lex-sizes", "default-name", "default-name-prefix", "default-name-prefix-opt",
                                         "default-name-cxx", "flex++", "outfile-opt"])]
 
